@@ -118,13 +118,6 @@ func (h *H) runChk(k chk, rank int64, cs Case) {
 		return
 	}
 	v := judge(impl, k.ref, k.sens, k.extra, k.floor)
-	if k.lax && k.ref.Kind != 'o' {
-		if finite(impl) {
-			v = verdict{ok: true, class: "prefix-underflows:finite"}
-		} else {
-			v = verdict{kind: "non-finite-where-tiny", class: "bad"}
-		}
-	}
 	if !v.ok && k.alt != nil {
 		if v2 := judge(impl, *k.alt, k.sens, k.extra, k.floor); v2.ok {
 			v = v2
@@ -184,11 +177,21 @@ func (h *H) refChecks(thorough bool) {
 			for _, k := range ks {
 				h.runChk(k, int64(i), mkCase("ref", k.fn, p.Fn, p.A, p.X))
 			}
+			if (fam == "igam" || fam == "bessel") && p.X != 0 && math.Abs(p.X) <= 1 && (thorough || i%7 == 0) {
+				// inside the domain of the computed reference of L6: both references must agree
+				// (quick: on every seventh point of the family)
+				if h.selfCheck6(p, row) {
+					c.Count("computed_reference_compared_with_mpmath_"+fam, 1)
+				}
+			}
 			if i == 1000 {
 				c.Sample(map[string]any{"fn": p.Fn, "a": p.A, "x": p.X, "row": row})
 			}
 		}
 		h.identOnTable(fam, byFam[fam], tbl)
+		if fam == "igam" || fam == "bessel" {
+			h.range6(fam, tbl, thorough)
+		}
 	}
 }
 
@@ -251,12 +254,12 @@ func replay(c *vf.Ctx, raw json.RawMessage) {
 			return
 		}
 		p := Pt{cs.Fam, a, x}
-		row, ok := tbl[mkKey(p.Fn, p.A, p.X)]
-		if !ok {
-			c.HarnessError("replay point has no reference row")
-			return
+		var ks []chk
+		if row, ok := tbl[mkKey(p.Fn, p.A, p.X)]; ok {
+			ks, err = rowChecks(p, row)
+		} else {
+			ks, err = computedChecks(p) // a case of the range lattice L6
 		}
-		ks, err := rowChecks(p, row)
 		if err != nil {
 			c.HarnessError(err.Error())
 			return
@@ -292,12 +295,13 @@ func main() {
 	vf.Main(vf.Spec{
 		ID:    "C13",
 		Level: "exploration",
-		Rule: "exhaustive enumeration of finite float64 sub-lattices: L1(m,E) = all values with <= m significant bits and binary exponent in [-E,E] (univariate m=8/6,E=40; (a,x) and (nu,x) m=4/3,E=12/10), L2 = integers and half-integers <= 60/20 as orders/poles x L1, L3 = every algorithm-selection threshold of the source +-{0..3} ulp and x(1+-1e-6), x(1+-1e-3), including the two-argument selection curves, plus extreme exponents; L5 (orders.go) = every branch condition in the order / shape parameter and every overflow-triggered rescaling branch: polygamma n in {20..28, 64, 100, 113..117, 128, 149..152, 169..172, 200, 256, 500, 1000, 5000}, Bessel |nu| in {60.5 .. 5000.5, 100 .. 5000} both signs, incomplete gamma a in {9.7 .. 1e6} with x = a, a(1+-2^-k), a+-709/744, a exp(+-709/a), 745a, Mgamma k in {5,6,8,16,32}, factorial/Bernoulli limits, zeta reflection s down to -100000.5, each crossed with a fixed argument lattice that reaches the branch (quick: a subset of the orders); every float32 value of the domain (quick: every float32 with <= 15 significant bits) for the univariate identities. " +
+		Rule: "exhaustive enumeration of finite float64 sub-lattices: L1(m,E) = all values with <= m significant bits and binary exponent in [-E,E] (univariate m=8/6,E=40; (a,x) and (nu,x) m=4/3,E=12/10), L2 = integers and half-integers <= 60/20 as orders/poles x L1, L3 = every algorithm-selection threshold of the source +-{0..3} ulp and x(1+-1e-6), x(1+-1e-3), including the two-argument selection curves, plus extreme exponents; L5 (orders.go) = every branch condition in the order / shape parameter and every overflow-triggered rescaling branch: polygamma n in {20..28, 64, 100, 113..117, 128, 149..152, 169..172, 200, 256, 500, 1000, 5000}, Bessel |nu| in {60.5 .. 5000.5, 100 .. 5000} both signs, incomplete gamma a in {9.7 .. 1e6} with x = a, a(1+-2^-k), a+-709/744, a exp(+-709/a), 745a, Mgamma k in {5,6,8,16,32}, factorial/Bernoulli limits, zeta reflection s down to -100000.5, each crossed with a fixed argument lattice that reaches the branch (quick: a subset of the orders); L6 (lattice6.go) = the range lattice: EVERY shape / order value of L1-L5 of the two-argument functions (incomplete gamma family and derivatives of P: a <= 1e5; BesselI/LogBesselI: |nu| <= 1e5, both signs, and the quarter orders +-{1.25, 1.75, 2.25, 2.75}; polygamma: every order) crossed with the logarithmic grid x = 10^-k, k = 0..301, and x = 2^-k, k = 32, 64, .. 992 (thorough: k = 2, 4, .. 1000), negative x for integer Bessel orders (quick: |n| <= 8), for polygamma x = +-10^-k and 10^k, k <= 308, at every decade where the value is within three decades of the float64 range and every 20th decade beyond - the arguments at which x^a, x^a e^-x/Gamma(a), (x/2)^nu, x^-(n+1) under- or overflow although the result is an ordinary number; every float32 value of the domain (quick: every float32 with <= 15 significant bits) for the univariate identities. " +
 			"A case is one (function, argument tuple); it is non-trivial when a finite reference value (or an exact zero / exact -Inf) is compared numerically, or an identity is evaluated with all members finite; points are distinct by construction (deduplicated lattices)",
 		Assume: []string{
 			"reference tables were generated with mpmath 1.3.0 at 60 digits (ref/c13/gen.py) and are verified by sha256 at start",
+		"the references of the incomplete gamma family and of Bessel I on the range lattice L6 (0 < |x| <= 1) are computed by the harness itself: convergent power series in 256-bit arithmetic (ref6.go, bigmath.go) with Gamma(a), psi(a), 1/Gamma(nu+1), psi(nu+1) from the committed mpmath table `shape` (50 digits); at every run this computed reference is compared with the mpmath rows of the tier that lie in its domain (thorough: all, quick: every seventh point; agreement to 1e-18 relative, sensitivities to 0.5 %), a disagreement is a harness error",
 			"tolerance C*u*max(1,cond)*|ref| with C=256 and cond = sum of |arg * df/darg / f| from the reference side; results below 1e-290 or above 1e300 are only required to under/overflow gracefully",
-			"math.Gamma/Lgamma/Erfc/Exp/Log of the Go runtime are trusted to a few ulp; math.Log of go1.23 on amd64 (log_amd64.s) is wrong for subnormal arguments (Log(5e-324) = -709.09 instead of -744.44), so the two-argument lattices keep x >= 2^-1000, where neither x nor the x/10 formed by the library is subnormal",
+			"math.Gamma/Lgamma/Erfc/Exp/Log of the Go runtime are trusted to a few ulp; math.Log of go1.23 on amd64 (log_amd64.s) is wrong for subnormal arguments (Log(5e-324) = -709.09 instead of -744.44), so the two-argument lattices (the range lattice L6 included) keep x >= 2^-1000, where neither x nor the x/10 and x/a formed by the library is subnormal",
 			"BernoulliNumber(1) may be +1/2 or -1/2",
 		},
 		Run:       run,
